@@ -1,7 +1,7 @@
 #!/bin/sh
 # usage: seed_regress.sh [-j N] [pattern]
 # Re-evaluates every stored change under /verif/seeded against the current checks (scratch worktrees only):
-# breaking changes (S-, R2-..R9-) must be reported as VIOLATION, behaviour-preserving ones (P8-) must stay green.
+# breaking changes (S-, R2-..R12-) must be reported as VIOLATION, behaviour-preserving ones (P8-, P10-, P13-) must stay green.
 # Prints one line per change and a summary; logs in /tmp/seedreg/.
 J=3; [ "${1:-}" = "-j" ] && { J=$2; shift 2; }
 PAT=${1:-.}
@@ -10,13 +10,16 @@ cd /verif/seeded || exit 2
 ls | grep -E "$PAT" | xargs -P $J -I{} sh -c '
   id={}; prop=$(echo $id | sed "s/.*-//")
   case $id in
-    P8-*|P10-*) /verif/tools/preserve_eval.sh $id $prop > /tmp/seedreg/$id.log 2>&1 ;;
+    P8-*|P10-*|P13-*) /verif/tools/preserve_eval.sh $id $prop > /tmp/seedreg/$id.log 2>&1 ;;
     *)    /verif/tools/seed_eval.sh $id $prop > /tmp/seedreg/$id.log 2>&1 ;;
   esac
   v=$(grep -c "^VIOLATION" /tmp/seedreg/$id.log); ok=$(grep -c "^OK property" /tmp/seedreg/$id.log); inc=$(grep -c "^INCONCLUSIVE" /tmp/seedreg/$id.log)
   case $id in
-    P8-*|P10-*) if [ $v -eq 0 ] && [ $ok -ge 1 ]; then r=PASS; else r=FAIL; fi ;;
-    *)    if [ $v -ge 1 ]; then r=PASS; else r=FAIL; fi ;;
+    P8-*|P10-*|P13-*) if [ $v -eq 0 ] && [ $ok -ge 1 ]; then r=PASS; else r=FAIL; fi ;;
+    *)    if grep -q "\"final\": \"NOT REPORTED" /verif/seeded/$id/meta.json; then
+            # judged equivalent within the scope of the property, see its meta.json: must stay unreported
+            if [ $v -eq 0 ] && [ $ok -ge 1 ]; then r=PASS; else r=FAIL; fi
+          elif [ $v -ge 1 ]; then r=PASS; else r=FAIL; fi ;;
   esac
   echo "$r $id violations=$v ok=$ok inconclusive=$inc"
 '
